@@ -118,7 +118,7 @@ class C17(Check):
     design_ref = 'DESIGN.md section 5, C17'
 
     def enumerate(self, tier):
-        raised = []
+        raised = [[]]           # (a failure without children is of the bare type and matches only bare handlers)
         for n in (1, 2, 3):
             raised += [list(c) for c in itertools.combinations_with_replacement(TOKENS, n)]
         handlers = [{'bare': True}, {'bare': True, 'ellipsis_only': True}]
@@ -265,7 +265,11 @@ class C17(Check):
         # ---- type depends only on the set of child types; equal specialisations are identical
         types = [w.make_type(t) for t in raised]
         T = type(exc)
-        if T is not Concurrent[tuple(types)] or T is not Concurrent[tuple(reversed(types))] \
+        if not raised:
+            # a failure without children is of the bare type; `Concurrent[()]` is not a documented spelling
+            if T is not Concurrent:
+                out.fail('type_identity', 'empty_not_bare', 'type(Concurrent()) is %r' % (T,))
+        elif T is not Concurrent[tuple(types)] or T is not Concurrent[tuple(reversed(types))] \
                 or T is not Concurrent[tuple(types + types[:1])]:
             out.fail('type_identity', 'order_or_multiplicity', 'type(Concurrent(*%r)) is not the specialisation of its type set' % (raised,))
         exc2 = Concurrent(*[w.make_exc(t) for t in reversed(raised)])
@@ -274,7 +278,7 @@ class C17(Check):
         name_before = T.__name__
         del exc2
         gc.collect()
-        if Concurrent[tuple(types)] is not T:
+        if raised and Concurrent[tuple(types)] is not T:
             out.fail('type_identity', 'not_cached_while_alive', 'specialisation re-created while the old class is alive')
         # ---- flattened(): leaves preserved, in order; no-op without nesting
         flat = exc.flattened()
@@ -322,8 +326,13 @@ class C17(Check):
                 del other
                 ref = w.match(h['types'], h['open'], raised)
                 desc = 'Concurrent[%s%s]' % (h['types'], ', ...' if h['open'] else '')
-            m1 = isinstance(exc, H)
-            m2 = issubclass(type(exc), H)
+            try:
+                m1 = isinstance(exc, H)
+                m2 = issubclass(type(exc), H)
+            except Exception as err:        # noqa  (matching must answer, not fail)
+                out.fail('isinstance', 'raised:%s' % type(err).__name__, 'raised %r, handler %s: isinstance/issubclass raised %r' % (
+                    raised, desc, err))
+                continue
             try:
                 raise exc
             except H:
